@@ -454,10 +454,17 @@ class Assign(Statement, AssignBase):
 
         # The loop bounds are read as well.
         get_deps = self.get_dependency_mapper()
-        for _ident, start, end in self.loops:
+        for ident, start, end in self.loops:
             for bound in (start, end):
                 result = result | frozenset(
                         dep.name for dep in get_deps(bound))
+
+            # The statement also uses the name of the loop variable, even if
+            # the loop variable occurs nowhere but in the loop header. Whoever
+            # asks which names a statement uses (to order it relative to other
+            # users of the name, to find clashes when fusing, to make up new
+            # names) needs to be told about it.
+            result = result | frozenset([ident])
 
         return result
 
